@@ -11,7 +11,7 @@ from symrun import values as V  # noqa: E402
 from symrun import regex as RX  # noqa: E402
 from symrun.values import SymEnum, SymBytes, SymInt, SymBool, fresh_enum, fresh_int, sym_and, sym_or, sym_not, zbyte  # noqa: E402
 import z3  # noqa: E402
-from harness.composed import Sim, honest_policy, replay_actions, THIRD  # noqa: E402
+from harness.composed import Sim, honest_policy, replay_actions, THIRD, payload  # noqa: E402
 from harness.explore import canonical, sim_args  # noqa: E402
 from wormhole import _rendezvous as RV, _mailbox as MB, _order as ORD, _key as KEY, _receive as RCV, _boss as BOSS, util as UTIL  # noqa: E402
 from wormhole.util import hexstr_to_bytes as real_hexstr_to_bytes, bytes_to_hexstr, dict_to_bytes  # noqa: E402
@@ -43,7 +43,12 @@ def pass_hex(x):
 
 def shadows():
     iso = V.sym_isinstance
-    return loader.shadow((RV, "hexstr_to_bytes", pass_hex), (RV, "isinstance", iso), (MB, "isinstance", iso), (ORD, "isinstance", iso),
+    real_b2d = RV.bytes_to_dict
+
+    def b2d(frame):
+        # the symbolic frame is handed to the real ws_message as an already-parsed dict (its fields are solver values; json is C code)
+        return frame if isinstance(frame, dict) else real_b2d(frame)
+    return loader.shadow((RV, "hexstr_to_bytes", pass_hex), (RV, "isinstance", iso), (RV, "bytes_to_dict", b2d), (MB, "isinstance", iso), (ORD, "isinstance", iso),
                          (KEY, "isinstance", iso), (RCV, "isinstance", iso), (BOSS, "isinstance", iso), (UTIL, "isinstance", iso),
                          (BOSS, "re", RX.SymReModule()), (BOSS, "int", V.sym_int))
 
@@ -83,7 +88,9 @@ class Tamper(Job):
         peer = sim.cl[1 - victim]
         stored = sim.mailbox_msgs(c) if c.conn is not None else []
         # own / peer / third side, and look-alikes that differ from a real side only by non-ASCII characters
-        sides = [c.side, peer.side, THIRD, c.side + "\u200b", "\u00e9" + c.side, peer.side + "\u200b"]
+        sides = [c.side, peer.side, THIRD, c.side + "\u200b", "\u00e9" + c.side, peer.side + "\u200b", peer.side[:-1]]
+        # label pairs whose CONCATENATION equals that of an honest pair (the boundary between side and phase moved by one character)
+        shifted = [peer.side[-1] + "0", peer.side[-1] + "version"]
         if self.ninj > 1:
             sides = sides[:3] if j == 0 else [peer.side]
         symbolic = script is None
@@ -99,7 +106,7 @@ class Tamper(Job):
             if symbolic:
                 k = cand[eng().choose(len(cand), "inj%d_stored" % j)]
                 eng().inputs["inj%d_stored" % j] = k
-                phase = fresh_enum("inj%d_phase" % j, NONPAKE)
+                phase = fresh_enum("inj%d_phase" % j, NONPAKE + shifted)
                 eng().inputs["inj%d_phase" % j] = phase
                 orig = real_hexstr_to_bytes(stored[k][2])
                 pos = fresh_int("inj%d_pos" % j, 0, len(orig))
@@ -132,7 +139,7 @@ class Tamper(Job):
                 bi = eng().choose(len(bodies), "inj%d_body" % j)
                 eng().inputs["inj%d_body" % j] = bi
                 # double injections use the labels that can pass for protocol traffic (keeps the product of case splits bounded)
-                phase = fresh_enum("inj%d_phase" % j, PHASES if self.ninj == 1 else (["pake", "version", "0", "1"] if j == 0 else ["version", "0", "1"]))
+                phase = fresh_enum("inj%d_phase" % j, (PHASES + shifted) if self.ninj == 1 else (["pake", "version", "0", "1"] if j == 0 else ["version", "0", "1"]))
                 eng().inputs["inj%d_phase" % j] = phase
             else:
                 bi = script["inj%d_body" % j]
@@ -145,7 +152,7 @@ class Tamper(Job):
         msg = {"type": "message", "side": side, "phase": phase, "body": body if symbolic else bytes_to_hexstr(body)}
         if symbolic:
             c.rx_log.append({"type": "message", "side": "<symbolic>", "phase": "<symbolic>"})
-            c._call("ws_message:message", c.rc._response_handle_message, msg)
+            c._call("ws_message:message", c.rc.ws_message, msg)
         else:
             c.rx(msg)
         return True
@@ -218,6 +225,8 @@ class Tamper(Job):
             if not viol:
                 sim.settle()
                 viol = self.violations(sim)
+            # observables for the per-path validation against a concrete run: what each application saw, where each Receive machine ended
+            self._obs = [[[m.hex() for m in msgs(c)], len([e for e in c.ev if e[0] == "versions"]), c.state("R"), sorted(set(e[1] for e in c.errors))] for c in sim.cl]
             return viol
         finally:
             lab.__exit__(None, None, None)
@@ -249,7 +258,7 @@ class Tamper(Job):
                 out.append(("a message was accepted under labels it was not encrypted for", "side %r phase %r" % (s_, ph)))
         for i, c in enumerate(sim.cl):
             peer = "AB"[1 - i]
-            sent = [b"msg-%s-%d" % (peer.encode(), n) for n in range(sim.api[1 - i]["sent"])]
+            sent = [payload(peer, n) for n in range(sim.api[1 - i]["sent"])]
             got = msgs(c)
             if got != sent[:len(got)]:
                 out.append(("application received content the peer did not send for that phase (or twice / out of order)", "%s got %r, peer sent %r" % (c.name, got, sent)))
@@ -269,6 +278,14 @@ class Tamper(Job):
             st.discharged += 1
             st.trivial += 1
         eng().note("nt:explored")
+        return getattr(self, "_obs", None)
+
+    def validate(self, inp, observed):
+        """the same adversarial delivery, concretely (no engine, no shadows): the applications must see what they saw on the symbolic path"""
+        self._obs = None
+        self.run(dict(inp))
+        if observed is not None and self._obs is not None and list(observed) != self._obs:
+            return "symbolic path saw %r, the concrete run of its model %r sees %r" % (observed, {k: v for k, v in inp.items() if not k.startswith("box")}, self._obs)
 
     def key(self, inp, label):
         return label.split(":")[0]
